@@ -576,7 +576,12 @@ func (ctx *Context) evaluate() {
 				return
 			}
 			stackPush(dict.V())
-		case typePushComputed, typePushFunction:
+		case typePushComputed:
+			// 每次执行到 &k = … 得到的是一个新的计算值(如同数组字面量每次得到新数组)。字节码里的那一份若被直接交出去，
+			// 计算值的属性表(其表达式内赋值的变量)就留在了编译好的程序里: 同一程序再执行一遍、或另一个上下文执行同一个函数值时会看到上一次的变量
+			cd, _ := code.Value.(*VMValue).ReadComputed()
+			stackPush(&VMValue{TypeId: VMTypeComputedValue, Value: &ComputedData{Expr: cd.Expr, code: cd.code, codeIndex: cd.codeIndex}})
+		case typePushFunction:
 			val := code.Value.(*VMValue)
 			stackPush(val)
 		case typePushNull:
